@@ -4,7 +4,9 @@ import (
 	"fmt"
 	"reflect"
 	"sort"
+	"sync/atomic"
 	"time"
+	"unsafe"
 )
 
 // ---- channel support for rewritten selects ----
@@ -132,4 +134,27 @@ type keySorter[K any] struct {
 
 func (x *keySorter[K]) Len() int           { return len(x.k) }
 func (x *keySorter[K]) Less(i, j int) bool { return x.s[i] < x.s[j] }
-func (x *keySorter[K]) Swap(i, j int)      { x.k[i], x.k[j] = x.k[j], x.k[i]; x.s[i], x.s[j] = x.s[j], x.s[i] }
+func (x *keySorter[K]) Swap(i, j int) {
+	x.k[i], x.k[j] = x.k[j], x.k[i]
+	x.s[i], x.s[j] = x.s[j], x.s[i]
+}
+
+// Gate is a harness-level latch visible to the scheduler: Wait blocks until Open was called.
+type Gate struct{ open atomic.Bool }
+
+func (g *Gate) Wait() {
+	if Controlled() {
+		Block(OpUser, uintptr(unsafe.Pointer(g)), func() bool { return g.open.Load() })
+		return
+	}
+	for !g.open.Load() {
+		time.Sleep(20 * time.Microsecond)
+	}
+}
+
+func (g *Gate) Open() {
+	Point(OpUser, uintptr(unsafe.Pointer(g)))
+	g.open.Store(true)
+}
+
+func (g *Gate) IsOpen() bool { return g.open.Load() }
